@@ -111,19 +111,24 @@ def parentInForce (parentAttrs : List ParentAttr) (ty : TypePath) : Option Paren
   (parentAttrs.find? fun p => p.childFields.isSome && (match p.containerTy with | some t => t == ty | none => false))
     <|> (parentAttrs.find? fun p => p.childFields.isSome && p.containerTy.isNone)
 
+/-- the shape a variant is written in for a counterpart: its own `#[type_hint(..)]`, whatever the enum-level instruction
+    says (what `render_enum_line` hands to the variant's body) -/
+def variantHintFor (v : Variant) (x : TraitAttrCore) : TypeHint :=
+  ((v.attrs.typeHint x.ty).map (·.typeHint)).getD .unspecified
+
 /-- a positional nested field needs, for an Into conversion to a struct-shaped counterpart, an instruction of that kind
     naming the counterpart's field (fix 2814c57) -/
-def nestedNamePass (namedRootStruct : Bool) (parentAttrs : List ParentAttr) (es : Errors) (x : TraitAttrCore × Kind) : Errors :=
-  let structShaped := x.1.typeHint == .struct || (x.1.typeHint == .unspecified && namedRootStruct)
+def nestedNamePass (namedRootStruct : Bool) (parentAttrs : List ParentAttr) (es : Errors) (x : TraitAttrCore × Kind × TypeHint) : Errors :=
+  let structShaped := x.2.2 == .struct || (x.2.2 == .unspecified && namedRootStruct)
   match structShaped, (parentInForce parentAttrs x.1.ty).bind (·.childFields) with
   | true, some fields =>
-    (fields.filter fun f => !f.namedFields && (match f.getForKind x.2 with | some a => a.thatMember.isNone | none => true)).foldl
+    (fields.filter fun f => !f.namedFields && (match f.getForKind x.2.1 with | some a => a.thatMember.isNone | none => true)).foldl
       (fun es f => es.insert (nestedNameMsg f x.1)) es
   | _, _ => es
 
 /-- `validate_parent_attrs` -/
-def validateParentAttrs (namedRootStruct : Bool) (parentAttrs : List ParentAttr) (byKind : List (TraitAttrCore × Kind)) (errors : Errors) : Errors :=
-  let errors := (byKind.filter fun (x, k) => !k.isFrom && x.quickReturn.isNone).foldl (nestedNamePass namedRootStruct parentAttrs) errors
+def validateParentAttrs (namedRootStruct : Bool) (writtenAs : List (TraitAttrCore × Kind × TypeHint)) (parentAttrs : List ParentAttr) (byKind : List (TraitAttrCore × Kind)) (errors : Errors) : Errors :=
+  let errors := (writtenAs.filter fun x => !x.2.1.isFrom && x.1.quickReturn.isNone).foldl (nestedNamePass namedRootStruct parentAttrs) errors
   parentAttrs.foldl (fun es pa =>
     let applies (x : TraitAttrCore) := pa.containerTy.isNone || isSomeEq pa.containerTy x.ty
     let es := (byKind.filter fun (x, k) => !k.isFrom && applies x).foldl (fun es (attr, _) =>
@@ -213,6 +218,44 @@ def traitAttrsByKind (dta : DataTypeAttrs) : List (TraitAttr × Kind) :=
   (kindOrderInto.flatMap fun k => (dta.iterForKind k false).map fun x => (x, k)) ++
   (kindOrderInto.flatMap fun k => (dta.iterForKind k true).map fun x => (x, k))
 
+/-- does the variant have an arm of its own in this conversion? Not a ghost variant on the From side, nor one without a
+    default value on the Into side (the two `continue`s of `enum_init_block_inner`) -/
+def variantHasArm (v : Variant) (ty : TypePath) (k : Kind) : Bool :=
+  match v.attrs.ghost ty k with
+  | some g => !k.isFrom && g.action.isSome
+  | none => true
+
+/-- `variant_has_body`: is the body of the variant (its members) written out in this conversion? -/
+def variantHasBody (v : Variant) (a : TraitAttr) (k : Kind) : Bool :=
+  variantHasArm v a.core.ty k &&
+  !(match v.attrs.applicableAttr k a.fallible a.core.ty with | some x => x.hasAction | none => false)
+
+/-- the (trait instruction, kind) pairs in which a variant's members are written, each with the shape they are written
+    in: that of the variant's own `#[type_hint(..)]` -/
+def variantWrittenAs (v : Variant) (dta : DataTypeAttrs) : List (TraitAttrCore × Kind × TypeHint) :=
+  ((traitAttrsByKind dta).filter fun x => variantHasBody v x.1 x.2).map fun x => (x.1.core, x.2, variantHintFor v x.1.core)
+
+/-- has `render_enum_line` an arm for this combination of a variant-level trait instruction, `#[literal]` and `#[pattern]`? -/
+def enumArmSupported (attr lit pat : Bool) (k : Kind) : Bool :=
+  match attr, lit, pat with
+  | false, false, false => true
+  | true, false, false | false, true, false => !k.isIntoExisting
+  | false, false, true => k.isFrom
+  | true, false, true => !k.isFrom && !k.isIntoExisting
+  | _, _, _ => false
+
+def variantArmMsg (v : Variant) (a : TraitAttr) (k : Kind) : String :=
+  "Variant " ++ v.ident ++ ": this combination of a variant-level trait instruction, #[literal(...)] and #[pattern(...)] is not supported for #[" ++
+    fallibleKindName k a.fallible ++ "(" ++ a.core.ty.pathStr ++ "...)] trait instruction"
+
+/-- `validate_variant_arm` -/
+def variantArmPass (v : Variant) (dta : DataTypeAttrs) (errors : Errors) : Errors :=
+  (traitAttrsByKind dta).foldl (fun es x =>
+    let ty := x.1.core.ty
+    if x.1.core.quickReturn.isSome || !variantHasArm v ty x.2 then es else
+    if enumArmSupported (v.attrs.applicableAttr x.2 x.1.fallible ty).isSome (v.attrs.lit ty).isSome (v.attrs.pat ty).isSome x.2 then es
+    else es.insert (variantArmMsg v x.1 x.2)) errors
+
 /-- is the nested struct a `#[child]` member is written into given `as {}` in `#[child_parents]`? (fix 43d0b08) -/
 def nestedStructShaped (input : Struct) (ty : TypePath) (field : Field) : Bool :=
   match field.attrs.child ty with
@@ -299,7 +342,7 @@ def validateMember (input : DataType) (isEnum : Bool) (typePaths : List TypePath
       let es := barkAtMemberAttr (ma.ghostsAttrs.filter fun x => !x.appl.get .ownedInto && x.appl.get .refInto).length "ghosts_ref" es
       let es := validateDedicatedMemberAttrs (ma.parentAttrs.map (·.containerTy)) (some "parent") typePaths es
       let named := match input with | .struct s => s.namedFields | .enum _ => false
-      let es := validateParentAttrs named ma.parentAttrs byKind es
+      let es := validateParentAttrs named (byKind.map fun x => (x.1, x.2, x.1.typeHint)) ma.parentAttrs byKind es
       parentTypePass f byKind es
     | .variant v =>
       let es := barkAtMemberAttr ma.parentAttrs.length "parent" es
@@ -311,7 +354,7 @@ def validateMember (input : DataType) (isEnum : Bool) (typePaths : List TypePath
       -- the payload fields of the variant
       v.fields.foldl (fun es f =>
         let es := barkAtMemberAttr f.attrs.childAttrs.length "child" es
-        let es := validateParentAttrs v.namedFields f.attrs.parentAttrs byKind es
+        let es := validateParentAttrs v.namedFields (variantWrittenAs v input.attrs) f.attrs.parentAttrs byKind es
         let es := parentTypePass f byKind es
         let es := validateDedicatedMemberAttrs (f.attrs.attrs.map (·.attr.containerTy)) none typePaths es
         let es := validateDedicatedMemberAttrs (f.attrs.ghostAttrs.map (·.attr.containerTy)) none typePaths es
@@ -372,5 +415,26 @@ def validate (input : DataType) : Errors :=
   let es := byKind.foldl (updatePass input) es
   let es := input.members.foldl (validateMember input isEnum typePaths byKind) es
   validateEnd input byKind typePaths es
+
+/-- `validate` as a whole: the rules above, and — for an input that is otherwise in order — the last check, which concerns
+    what the expander can write at all (`validate_variant_arm`, the former `todo!()` of `render_enum_line`) -/
+def validateAll (input : DataType) : Errors :=
+  match validate input, input with
+  | [], .enum e => e.variants.foldl (fun es v => variantArmPass v e.attrs es) []
+  | es, _ => es
+
+/-- every diagnostic of the rules is a diagnostic of the whole -/
+theorem validateAll_of_mem (input : DataType) (m : String) (h : m ∈ validate input) : m ∈ validateAll input := by
+  unfold validateAll
+  split
+  · simp_all
+  · exact h
+
+/-- an input the whole accepts is accepted by the rules -/
+theorem validate_of_validateAll_nil (input : DataType) (h : validateAll input = []) : validate input = [] := by
+  unfold validateAll at h
+  split at h
+  · assumption
+  · exact h
 
 end O2o
